@@ -120,13 +120,13 @@ fn cat(a: &[u8], b: &[u8]) -> Vec<u8> {
 
 pub const ENC: &[(&str, Fam, EncFn)] = &[
     ("secretbox_easy", Fam::Sb, |ks, m| {
-        let mut c = vec![0u8; m.len() + 16];
+        let mut c = vec![0xC3u8; m.len() + 16];
         sb::crypto_secretbox_easy(&mut c, m, &ks.n, &ks.k).unwrap();
         c
     }),
     ("secretbox_detached", Fam::Sb, |ks, m| {
-        let mut c = vec![0u8; m.len()];
-        let mut mac = [0u8; 16];
+        let mut c = vec![0xC3u8; m.len()];
+        let mut mac = [0xC3u8; 16];
         sb::crypto_secretbox_detached(&mut c, &mut mac, m, &ks.n, &ks.k);
         cat(&mac, &c)
     }),
@@ -151,19 +151,19 @@ pub const ENC: &[(&str, Fam, EncFn)] = &[
         cat(t.as_slice(), &d)
     }),
     ("box_easy", Fam::Bx, |ks, m| {
-        let mut c = vec![0u8; m.len() + 16];
+        let mut c = vec![0xC3u8; m.len() + 16];
         cb::crypto_box_easy(&mut c, m, &ks.n, &ks.pk_b, &ks.sk_a).unwrap();
         c
     }),
     ("box_detached", Fam::Bx, |ks, m| {
-        let mut c = vec![0u8; m.len()];
-        let mut mac = [0u8; 16];
+        let mut c = vec![0xC3u8; m.len()];
+        let mut mac = [0xC3u8; 16];
         cb::crypto_box_detached(&mut c, &mut mac, m, &ks.n, &ks.pk_b, &ks.sk_a);
         cat(&mac, &c)
     }),
     ("box_detached_inplace", Fam::Bx, |ks, m| {
         let mut d = m.to_vec();
-        let mut mac = [0u8; 16];
+        let mut mac = [0xC3u8; 16];
         cb::crypto_box_detached_inplace(&mut d, &mut mac, &ks.n, &ks.pk_b, &ks.sk_a).unwrap();
         cat(&mac, &d)
     }),
@@ -174,21 +174,21 @@ pub const ENC: &[(&str, Fam, EncFn)] = &[
         d
     }),
     ("box_detached_afternm", Fam::Bx, |ks, m| {
-        let mut c = vec![0u8; m.len()];
-        let mut mac = [0u8; 16];
+        let mut c = vec![0xC3u8; m.len()];
+        let mut mac = [0xC3u8; 16];
         cb::crypto_box_detached_afternm(&mut c, &mut mac, m, &ks.n, &ks.pre);
         cat(&mac, &c)
     }),
     ("box_detached_afternm_inplace", Fam::Bx, |ks, m| {
         let mut d = m.to_vec();
-        let mut mac = [0u8; 16];
+        let mut mac = [0xC3u8; 16];
         cb::crypto_box_detached_afternm_inplace(&mut d, &mut mac, &ks.n, &ks.pre);
         cat(&mac, &d)
     }),
     ("box_beforenm+detached_afternm", Fam::Bx, |ks, m| {
         let pre = cb::crypto_box_beforenm(&ks.pk_b, &ks.sk_a);
-        let mut c = vec![0u8; m.len()];
-        let mut mac = [0u8; 16];
+        let mut c = vec![0xC3u8; m.len()];
+        let mut mac = [0xC3u8; 16];
         cb::crypto_box_detached_afternm(&mut c, &mut mac, m, &ks.n, &pre);
         cat(&mac, &c)
     }),
@@ -215,7 +215,7 @@ pub const ENC: &[(&str, Fam, EncFn)] = &[
     }),
     ("box_seal", Fam::Seal, |ks, m| {
         with_esk(ks.esk, || {
-            let mut c = vec![0u8; m.len() + 48];
+            let mut c = vec![0xC3u8; m.len() + 48];
             cb::crypto_box_seal(&mut c, m, &ks.pk_b).unwrap();
             c
         })
@@ -361,6 +361,12 @@ pub const OPEN: &[(&str, Fam, OpenFn)] = &[
             b.decrypt_to_vec(&ks.n.to_vec(), &ks.k.to_vec())
         })
     }),
+    ("DryocSecretBox::from_bytes->decrypt[all vec containers]", Fam::Sb, |ks, w, _| {
+        object(|| {
+            let b: DryocSecretBox<Vec<u8>, Vec<u8>> = DryocSecretBox::from_bytes(w)?;
+            b.decrypt::<Vec<u8>, _, _>(&ks.n.to_vec(), &ks.k.to_vec())
+        })
+    }),
     ("DryocSecretBox::from_parts->decrypt", Fam::Sb, |ks, w, _| {
         if w.len() < 16 {
             return na();
@@ -468,6 +474,13 @@ pub const OPEN: &[(&str, Fam, OpenFn)] = &[
             let b: DryocBox<BPK, BM, Vec<u8>> = DryocBox::new_with_epk_data_and_mac(BPK::from(&epk), BM::from(&mac), &w[48..]);
             let kp: KeyPair<BPK, BSK> = KeyPair::from_slices(&ks.pk_b, &ks.sk_b)?;
             b.unseal_to_vec(&kp)
+        })
+    }),
+    ("DryocBox::from_sealed_bytes->unseal[all vec containers]", Fam::Seal, |ks, w, _| {
+        object(|| {
+            let b: DryocBox<Vec<u8>, Vec<u8>, Vec<u8>> = DryocBox::from_sealed_bytes(w)?;
+            let kp: KeyPair<Vec<u8>, Vec<u8>> = KeyPair::from_slices(&ks.pk_b, &ks.sk_b)?;
+            b.unseal::<_, _, Vec<u8>>(&kp)
         })
     }),
     ("DryocBox::from_sealed_bytes->unseal_to_vec", Fam::Seal, |ks, w, _| {
